@@ -261,18 +261,20 @@ Section Exn.
   Qed.
 
   (* after a step that ended with an exception: (a) no per-step name is visible, (b) every persistent
-     variable holds its old value unless an executed statement writes it, (c) in particular variables
-     written only by statements after the failing one are unchanged *)
+     variable holds its old value unless an executed statement (the failing one included: it may have
+     completed some iterations of its loop nest) writes it, (c) in particular variables written only by
+     statements after the failing one are unchanged *)
   Theorem exn_state l1 st l2 s s1 evs1 (u : bool) :
     exec_seq F g l1 s [] = (s1, evs1, BDone) ->
     snd (exec_stmt F g s1 st) = (if u then OUserExn else OCrash) ->
     let final := cleanup keep (fst (fst (exec_seq F g (l1 ++ st :: l2) s []))) in
     Pre keep final /\
-    (forall x, keep x = true -> (forall a, In a l1 -> ~ WL a x) -> final x = s x) /\
+    (forall x, keep x = true -> (forall a, In a (l1 ++ [st]) -> ~ WL a x) -> final x = s x) /\
     snd (exec_seq F g (l1 ++ st :: l2) s []) = BExn u.
   Proof.
     intros H1 H2. rewrite (exec_seq_exn_prefix l1 st l2 s [] s1 evs1 u H1 H2). cbn [fst snd].
     split; [apply Pre_cleanup|]. split; [|reflexivity].
-    intros x Hk Hx. unfold cleanup. rewrite Hk. eapply exec_seq_unch; [exact H1|exact Hx].
+    intros x Hk Hx. unfold cleanup. rewrite Hk. eapply exec_seq_unch; [exact H1|].
+    intros a Ha. apply Hx. rewrite in_app_iff. now left.
   Qed.
 End Exn.
